@@ -40,6 +40,19 @@ func main() {
 		}
 		os.Stdout.Write(b)
 		fmt.Println()
+	case "ssa":
+		p, err := core.Load("/repo", "", nil)
+		if err != nil {
+			fmt.Println(err)
+			os.Exit(1)
+		}
+		for _, name := range os.Args[2:] {
+			if fn := p.FuncByQualName(name); fn != nil {
+				fn.WriteTo(os.Stdout)
+			} else {
+				fmt.Println("no function", name)
+			}
+		}
 	case "list":
 		for _, id := range checks.IDs() {
 			fmt.Println(id)
